@@ -5,15 +5,16 @@ from genlib import *
 LEAN_MODULES = ["MpirProofs.Props.C18"]
 THEOREMS = ["Mpir.Printf.snprintf_bound", "Mpir.Printf.doprnti_eq_c99", "Mpir.Printf.doprnti_eq_c99_string",
             "Mpir.Printf.asprintf_block", "Mpir.Printf.doprnti_big_layout", "Mpir.Printf.parser_total_partial"]
-TRUSTED = ["hand-written model lean/Mpir/Model/Printf.lean of printf/doprnt.c, doprnti.c, snprntffuns.c, asprntffuns.c, vasprintf.c (tied by correspondence on every run)",
+TRUSTED = ["hand-written models lean/Mpir/Model/Printf.lean of printf/doprnt.c, doprnti.c, doprntf.c, snprntffuns.c, asprntffuns.c, vasprintf.c and lean/Mpir/Model/Scanf.lean of scanf/doscan.c (tied by correspondence on every run)",
            "the C99 specification function cFormatCore/cprintfInt is written from ISO C99 7.19.6.1 and validated against glibc's snprintf on every run (glibc column of the gmp_snprintf_* ops)",
            "harness passes variable arguments as twelve 64-bit slots (x86-64 SysV ABI)"]
 ASSUMPTIONS = ["on record, judged not to violate C18 as worded: gmp_*scanf %Zx/%Qx does not accept a 0x/0X prefix, unlike C's %x (text printed with %#Zx is read back by %Zi); %% in a scanf format does not skip white space, unlike C99/glibc",
                "the round-trip op demands equality for the matching read conversion (%Zd for %Zd/%Zi output, %Zo for %Zo, %Zx for %Zx/%ZX without '#', %Zi for '#' forms and plain decimal); Q only without precision",
                "mpz_get_str/mpq_get_str digits are taken from their specification (natDigits); C06 owns their correctness",
-               "the C library's vsnprintf is C99 conforming (returns the full length); %F layout is not modelled in this part"]
+               "the C library's vsnprintf is C99 conforming (returns the full length)",
+               "%F: mpf_get_str digits are taken from their specification (exact value rounded half up on the next digit; C13 owns mpf_get_str); the %F correspondence uses mantissas of at most two limbs, where mpf/get_str.c computes exactly"]
 RULE = ("exhaustive cross product flags subsets(32) x width {none,1,5,40,*,-*} x precision {none,.,.0,.1,.5,.40,.*} x conv {d,i,o,x,X} "
-        "x type {Z,N (15 values incl. LONG_MIN/MAX, +-2^64, +-10^40), Q, M}; snprintf sizes 0..len+1 on sampled formats; mixed standard/MPIR formats "
+        "x type {Z,N (15 values incl. LONG_MIN/MAX, +-2^64, +-10^40), Q, M}; %F grid 11 flag sets x width {none,12,30,*} x precision {none,.,.0,.1,.3,.10,.25,.*} x f e E g G a A x 13+ values incl. rounding carries; snprintf sizes 0..len+1 on sampled formats; mixed standard/MPIR formats "
         "through all 12 output functions; asprintf lengths around 255/256/512; scanf read-back of printed strings and malformed inputs; "
         "distinct = distinct op lines")
 
@@ -213,6 +214,39 @@ def scan_positions(rng, tier):
                 yield "gmp_fscanf %s %s %s" % (sbytes(fw), sbytes(tys(f)), sbytes(text))
                 yield "gmp_sscanf %s %s %s" % (sbytes(fw), sbytes(tys(f)), sbytes(text))
 
+# ---- %F: layout of doprntf.c around mpf_get_str digits
+F_GENERAL_EMPTYPREC = False     # "%.Fg": doprntf.c:85 passes MPF_SIGNIFICANT_DIGITS its arguments in the wrong order (reported as F1)
+def fval(m, e2):
+    """tokens `exp size [limbs]` of the mpf with value m * 2^e2"""
+    neg = m < 0; m = abs(m)
+    if m == 0: return "0 0 []"
+    sh = e2 % 64; m <<= sh; e2 -= sh
+    while m % B == 0: m >>= 64; e2 += 64
+    l = limbs_of(m); n = len(l)
+    return "%s %s %s" % (hx(e2 // 64 + n), hx(-n if neg else n), vec(l))
+FVALS = [(0, 0), (1, 0), (-1, 0), (1, -1), (3, -1), (1, -3), (5, -4), (12345, 0), (12345, -3), (-9999, -2), (999999, -1), (1, 10), (1, 64), (1, -64),
+         (10 ** 15, 0), (3, -20), (255, -8), (1, -10), (123456789, -30), (10 ** 18 + 1, -5), (7, 3), (1999, -1), (9995, -2), (99999, 0), (-99995, -10),
+         (1, -14), (1, -13), (100000, 0), (999999, 0), (1000000, 0), (9999995, -1), (15, -4), (-255, -4), (1, 127), (10 ** 19, 0)]
+def fgrid(rng, tier):
+    fls = ["", "-", "+", " ", "#", "0", "-#", "+0", " #0", "-0", "+ "]
+    for fl in fls:
+        for w in ["", "12", "30", "*"]:
+            for p in ["", ".", ".0", ".1", ".3", ".10", ".25", ".*"]:
+                for c in "feEgGaA":
+                    if p == "." and c in "gG" and not F_GENERAL_EMPTYPREC: continue
+                    ty, st = "", []
+                    if w == "*": ty += "i"; st.append(hx(rng.choice([0, 9, 20, -15])))
+                    if p == ".*": ty += "i"; st.append(hx(rng.choice([0, 2, 7, -1])))
+                    vals = FVALS if tier == "thorough" else rng.sample(FVALS, 12)
+                    for (m, e) in vals + [(rng.getrandbits(rng.choice([20, 60, 64, 100, 128])) * rng.choice([1, -1]) | 1, rng.randrange(-140, 70))]:
+                        bits = rng.choice([64, 80, 128, 256])
+                        yield "gmp_snprintf_F %x %s %s%x %s" % (rng.choice([0x200, 0x200, 0x200, 7, 1, 0]), sbytes("%" + fl + w + p + "F" + c),
+                                                                "".join(x + " " for x in st), bits, fval(m, e))
+    for fam in UNSIZED + ["gmp_printf"]:
+        for f, ty, a in [("%Ff", "F", ["80 " + fval(5, -1)]), ("[%d|%10.3Fe|%Zd|%s]", "iFZs", ["-3", "80 " + fval(12345, -3), "-7", sbytes("x")]),
+                         ("%Fg %Fg", "FF", ["80 " + fval(1, -20), "40 " + fval(10 ** 8, 0)]), ("%n%.2Ff%n", "nFn", ["80 " + fval(-7, -2)])]:
+            yield " ".join([fam, sbytes(f), sbytes(ty)] + a)
+
 def gen_ops(rng, tier, ctx=None):
     yield from cross(rng, tier)
     yield from perm_flags(rng)
@@ -222,3 +256,4 @@ def gen_ops(rng, tier, ctx=None):
     yield from roundtrip(rng, tier)
     yield from scans(rng, tier)
     yield from scan_positions(rng, tier)
+    yield from fgrid(rng, tier)
